@@ -1,17 +1,11 @@
 (* C10 for Maven and RubyGems: witnesses and structure-level facts about the canonical printers. *)
 From Coq Require Import Lia.
 From DepsDev Require Import Lib.Base Lib.Order Lib.BytesFacts Semver.Version Semver.Maven Semver.Gem Semver.MavenParse
-  Semver.GemParse Semver.GemDomain Semver.MavenDomain Semver.Compare Semver.Generic_proofs Semver.Maven_proofs Semver.Gem_proofs.
+  Semver.GemParse Semver.GemDomain Semver.MavenDomain Semver.MavenPrintable Semver.Compare Semver.Generic_proofs Semver.Maven_proofs Semver.Gem_proofs.
 Local Open Scope Z_scope.
 
 (* ------------------------------------------------------------------ Maven *)
 (* the printer never writes the separator of the first element *)
-Definition head_sep0 (l : list mvn_elem) : list mvn_elem :=
-  match l with
-  | [] => []
-  | e :: t => {| me_sep := 0; me_str := me_str e; me_int := me_int e |} :: t
-  end.
-
 Lemma maven_canon_head l : maven_canon (head_sep0 l) = maven_canon l.
 Proof. destruct l; reflexivity. Qed.
 
